@@ -858,7 +858,8 @@ def _finalize_parse_info(text, nodes, pos, fullparse):
 
     for node in visit(nodes):
         pos_info = node._metadata.position_info
-        if pos_info:
+        # An object that a nested parse returned has its final positions already.
+        if pos_info and not isinstance(pos_info, _PositionInfo):
             start, end = pos_info
             node._metadata.position_info = _PositionInfo(
                 start=position(start),
